@@ -200,6 +200,33 @@ func (x *Exec) instrWrites(ins ssa.Instruction, ws *WriteSet, visiting map[*ssa.
 }
 
 func (x *Exec) callWrites(c *ssa.CallCommon, ws *WriteSet, visiting map[*ssa.Function]bool) {
+	// an interior pointer handed to a callee: everything below it may be written, in the caller's
+	// view of the heap (the enclosing object), whatever the callee's own view is
+	for _, a := range c.Args {
+		if _, isPtr := a.Type().Underlying().(*types.Pointer); !isPtr {
+			continue
+		}
+		switch a.(type) {
+		case *ssa.FieldAddr, *ssa.IndexAddr:
+			func() {
+				defer func() { recover() }()
+				kind, root, path, local := x.storeTarget(a)
+				if local {
+					return
+				}
+				if _, isOpaque := opaqueSort(typeAtPath(root, path)); isOpaque {
+					return
+				}
+				for _, k := range x.keysUnder(kind, root, path) {
+					ws.keys[k] = true
+				}
+			}()
+		}
+	}
+	x.callWrites0(c, ws, visiting)
+}
+
+func (x *Exec) callWrites0(c *ssa.CallCommon, ws *WriteSet, visiting map[*ssa.Function]bool) {
 	if c.IsInvoke() {
 		key := c.Method.FullName()
 		if ctr := x.P.cs.byKey[key]; ctr != nil {
